@@ -23,7 +23,8 @@
 #else
 #define HAVE_SHIM 0
 #endif
-#if (MANIFOLD_PAR == 1) && !HAVE_SHIM
+#if (MANIFOLD_PAR == 1) && !HAVE_SHIM && !defined(VSHIM_THREADED)
+#define HAVE_REAL_TBB 1
 #include <tbb/global_control.h>
 #include <tbb/task_arena.h>
 #endif
@@ -81,7 +82,7 @@ void underSchedules(vh::Ctx& c, const std::string& algo, size_t n, const std::st
     uint64_t leaves0 = tbb::vshim::st().leaves, steals0 = tbb::vshim::st().steals;
 #endif
     std::string diff;
-#if (MANIFOLD_PAR == 1) && !HAVE_SHIM
+#if defined(HAVE_REAL_TBB)
     {
       static const int conc[] = {1, 2, 3, 4, 8, 16};
       int k = conc[seed % 6];
